@@ -132,6 +132,7 @@ func (e *Engine) VerifyFunc(con *Contract, workdir string, timeoutS int, all boo
 		// vacuity: precondition satisfiable
 		x.obls = append(x.obls, &Obligation{Name: key + "#vacuity[requires]", Kind: "vacuity", Tags: con.Tags, Assume: append([]*Term(nil), st.pc...), Goal: nil, Unit: key})
 		x.heap0 = st.heap.clone()
+		x.computeModLocs(con)
 		x.runFunction(fn, st, args, free, 0, false, func(st2 *State, r *SV) {
 			penv := &Env{x: x, vars: map[string]*SV{}, heap: st2.heap, old: x.heap0}
 			for k, v := range x.entryEnv {
@@ -144,7 +145,7 @@ func (e *Engine) VerifyFunc(con *Contract, workdir string, timeoutS int, all boo
 				x.oblige(st2, "ensures", c.Label, c.Tags, g, pos)
 			}
 			if !con.ModifiesAll {
-				x.frameObligations(st2, con, env, pos)
+				x.frameObligations(st2, con, pos)
 			}
 		})
 	}()
@@ -179,15 +180,41 @@ func dedupe(xs []string) []string {
 	return out
 }
 
-// frameObligations: everything not named in modifies is unchanged for objects
-// that existed at entry.
-func (x *Exec) frameObligations(st *State, con *Contract, entryEnv *Env, pos token.Pos) {
-	pre := &Env{x: x, vars: entryEnv.vars, heap: x.heap0, old: x.heap0}
-	locs := x.modifiesLocs(con, pre, nil)
-	byComp := map[string][]*Term{}
-	for _, l := range locs {
-		byComp[l.comp] = append(byComp[l.comp], l.ref)
+// frameGoal: for component c with current value `now`, every location that
+// existed at entry and is not named in the unit's modifies clause is unchanged.
+func (x *Exec) frameGoal(c string, now *Term) *Term {
+	s := x.compSorts[c]
+	was := x.compOf(x.heap0, c, s)
+	if now.String() == was.String() {
+		return TTrue
 	}
+	if !s.IsArray() || strings.HasPrefix(c, "G!") {
+		if len(x.modLocs[c]) > 0 {
+			return TTrue
+		}
+		return Eq(now, was)
+	}
+	is, _ := s.ArrayParts()
+	r := Atom("r!f", is)
+	var conds []*Term
+	if is == SInt && !strings.HasPrefix(c, "GH!") {
+		conds = append(conds, App("<", SBool, r, x.alloc0))
+	}
+	for _, m := range x.modLocs[c] {
+		conds = append(conds, Not(Eq(r, m)))
+	}
+	return Forall([]*Term{r}, Imp(And(conds...), Eq(Select(now, r), Select(was, r))))
+}
+
+func (x *Exec) computeModLocs(con *Contract) {
+	pre := &Env{x: x, vars: x.entryEnv, heap: x.heap0, old: x.heap0}
+	x.modLocs = map[string][]*Term{}
+	for _, l := range x.modifiesLocs(con, pre, nil) {
+		x.modLocs[l.comp] = append(x.modLocs[l.comp], l.ref)
+	}
+}
+
+func (x *Exec) frameObligations(st *State, con *Contract, pos token.Pos) {
 	names := make([]string, 0, len(x.writes))
 	for c := range x.writes {
 		names = append(names, c)
@@ -196,29 +223,11 @@ func (x *Exec) frameObligations(st *State, con *Contract, entryEnv *Env, pos tok
 	for _, c := range names {
 		s := x.compSorts[c]
 		now := x.compOf(st.heap, c, s)
-		was := x.compOf(x.heap0, c, s)
-		if now.String() == was.String() {
+		g := x.frameGoal(c, now)
+		if IsTrue(g) {
 			continue
 		}
-		var goal *Term
-		if !s.IsArray() || strings.HasPrefix(c, "G!") {
-			goal = Eq(now, was)
-			if len(byComp[c]) > 0 {
-				continue
-			}
-		} else {
-			is, _ := s.ArrayParts()
-			r := Atom("r!f", is)
-			var conds []*Term
-			if is == SInt && !strings.HasPrefix(c, "GH!") {
-				conds = append(conds, App("<", SBool, r, x.alloc0))
-			}
-			for _, m := range byComp[c] {
-				conds = append(conds, Not(Eq(r, m)))
-			}
-			goal = Forall([]*Term{r}, Imp(And(conds...), Eq(Select(now, r), Select(was, r))))
-		}
-		x.oblige(st, "frame", c, con.Tags, goal, pos)
+		x.oblige(st, "frame", c, con.Tags, g, pos)
 	}
 }
 
@@ -226,6 +235,7 @@ func (x *Exec) frameObligations(st *State, con *Contract, entryEnv *Env, pos tok
 func (e *Engine) solveUnit(w *World, res *UnitResult, workdir string, timeoutS int, all bool) {
 	type job struct {
 		script string
+		plain  string
 		file   string
 		obls   []*Obligation
 		vac    bool
@@ -236,15 +246,20 @@ func (e *Engine) solveUnit(w *World, res *UnitResult, workdir string, timeoutS i
 		if o.Status != "" {
 			continue
 		}
-		var script string
+		var script, plain string
 		if o.Kind == "vacuity" {
 			script = w.Script(o.Assume, nil, false)
 		} else {
-			script = w.Script(o.Assume, o.Goal, true)
+			as, g := instantiate(w, o.Assume, o.Goal)
+			script = w.Script(as, g, true)
+			plain = w.Script(o.Assume, o.Goal, true)
+			if plain == script {
+				plain = ""
+			}
 		}
 		j := jobs[script]
 		if j == nil {
-			j = &job{script: script, file: filepath.Join(workdir, fmt.Sprintf("%s_%04d.smt2", smtName(res.Key), i)), vac: o.Kind == "vacuity"}
+			j = &job{script: script, plain: plain, file: filepath.Join(workdir, fmt.Sprintf("%s_%04d.smt2", smtName(res.Key), i)), vac: o.Kind == "vacuity"}
 			jobs[script] = j
 			order = append(order, j)
 		}
@@ -258,6 +273,14 @@ func (e *Engine) solveUnit(w *World, res *UnitResult, workdir string, timeoutS i
 			defer wg.Done()
 			t := timeoutS
 			r := solve(j.script, j.file, t, all && !j.vac, nil)
+			if r.status != "unsat" && j.plain != "" {
+				// the instantiated query did not close: ask for a verdict (and a model) on the plain one
+				r2 := solve(j.plain, strings.TrimSuffix(j.file, ".smt2")+"_plain.smt2", t, false, nil)
+				if r2.status != "unknown" {
+					r2.secs += r.secs
+					r = r2
+				}
+			}
 			for _, o := range j.obls {
 				o.Status, o.Solver, o.TimeS = r.status, r.solver, r.secs
 				if r.status != "unsat" {
